@@ -46,6 +46,21 @@ type mval struct {
 	elems []*mval
 	keys  []string
 	holey bool // an element was removed other than by Pop: index addressing is not generated any more
+	// inserted through SetAny/AddAny/SetAnyByIndex: a V_ANY node is documented to serve only
+	// Interface()/Array()/Map() and serialisation; it keeps the Go value (int64 stays int64)
+	opaque bool
+}
+
+func (m *mval) hasOpaque() bool {
+	if m.opaque {
+		return true
+	}
+	for _, e := range m.elems {
+		if e.hasOpaque() {
+			return true
+		}
+	}
+	return false
 }
 
 func fromRef(v *ref.Value) *mval {
@@ -160,6 +175,9 @@ type c15Op struct {
 	from  []interface{} // if set: the new value is the (scalar) node found at this path of the same tree
 	rec   bool
 	label string
+	// SetAny/AddAny/SetAnyByIndex: the Go value handed over (val is its model)
+	any  interface{}
+	key2 string // second step of GetByPath
 }
 
 func (o c15Op) String() string {
@@ -280,6 +298,12 @@ func applyModel(root *mval, op c15Op) obs {
 	t := modelAt(root, op.path)
 	if t == nil {
 		return obs{unspec: true}
+	}
+	for k := range op.path {
+		if a := modelAt(root, op.path[:k+1]); a != nil && a.opaque {
+			// inside (or at) a V_ANY value: nothing but its serialisation is specified
+			return obs{unspec: true}
+		}
 	}
 	switch op.name {
 	case "Get":
@@ -413,6 +437,66 @@ func applyModel(root *mval, op c15Op) obs {
 		return obs{}
 	case "Load", "LoadAll", "Touch":
 		return obs{}
+	case "SetAny":
+		o2 := op
+		o2.name = "Set"
+		return applyModel(root, o2)
+	case "AddAny":
+		o2 := op
+		o2.name = "Add"
+		return applyModel(root, o2)
+	case "SetAnyByIndex":
+		o2 := op
+		o2.name = "SetByIndex"
+		return applyModel(root, o2)
+	case "IndexPair":
+		if t.kind != ref.Obj {
+			return obs{unspec: true}
+		}
+		if op.idx >= 0 && op.idx < len(t.elems) {
+			return obs{ok: true, val: strconv.Quote(t.keys[op.idx]) + ":" + tokensText(t.elems[op.idx].String())}
+		}
+		return obs{ok: false}
+	case "IndexOrGet":
+		if t.kind != ref.Obj {
+			return obs{err: true}
+		}
+		if op.idx >= 0 && op.idx < len(t.elems) && t.keys[op.idx] == op.key {
+			return obs{ok: true, val: tokensText(t.elems[op.idx].String())}
+		}
+		if e := t.get(op.key); e != nil {
+			return obs{ok: true, val: tokensText(e.String())}
+		}
+		return obs{ok: false}
+	case "GetByPath":
+		// two steps: a key or an index, then a key
+		var e *mval
+		if t.kind == ref.Obj {
+			e = t.get(op.key)
+		} else if t.kind == ref.Arr && op.idx >= 0 && op.idx < len(t.elems) {
+			e = t.elems[op.idx]
+		}
+		if e == nil || e.kind != ref.Obj {
+			return obs{ok: false}
+		}
+		if e2 := e.get(op.key2); e2 != nil {
+			return obs{ok: true, val: tokensText(e2.String())}
+		}
+		return obs{ok: false}
+	case "Views":
+		// the read-only conversions of the whole subtree, in the middle of a sequence
+		if t.hasOpaque() {
+			return obs{unspec: true}
+		}
+		switch t.kind {
+		case ref.Obj, ref.Arr:
+			var want interface{}
+			if json.Unmarshal([]byte(t.String()), &want) != nil {
+				return obs{unspec: true}
+			}
+			return obs{ok: true, val: strconv.Itoa(len(t.elems)) + "|" + gen.Dump(reflect.ValueOf(&want).Elem())}
+		}
+		return obs{unspec: true}
 	case "Keys": // iteration order of an object / array length through iterators
 		switch t.kind {
 		case ref.Obj:
@@ -513,6 +597,70 @@ func applyNode(root *ast.Node, op c15Op, rawValues bool) obs {
 		t.Get(op.key)
 		t.Index(op.idx)
 		return obs{}
+	case "SetAny":
+		ok, err := t.SetAny(op.key, op.any)
+		return obs{ok: ok, err: err != nil}
+	case "AddAny":
+		err := t.AddAny(op.any)
+		return obs{err: err != nil}
+	case "SetAnyByIndex":
+		ok, err := t.SetAnyByIndex(op.idx, op.any)
+		return obs{ok: ok, err: err != nil}
+	case "IndexPair":
+		if t.TypeSafe() != ast.V_OBJECT {
+			return obs{unspec: true}
+		}
+		p := t.IndexPair(op.idx)
+		if p == nil || !p.Value.Exists() {
+			return obs{ok: false}
+		}
+		return obs{ok: true, val: strconv.Quote(p.Key) + ":" + text(&p.Value)}
+	case "IndexOrGet":
+		n := t.IndexOrGet(op.idx, op.key)
+		if n == nil || !n.Exists() {
+			if t.TypeSafe() != ast.V_OBJECT {
+				return obs{err: true}
+			}
+			return obs{ok: false}
+		}
+		return obs{ok: true, val: text(n)}
+	case "GetByPath":
+		var n *ast.Node
+		if t.TypeSafe() == ast.V_OBJECT {
+			n = t.GetByPath(op.key, op.key2)
+		} else {
+			n = t.GetByPath(op.idx, op.key2)
+		}
+		if n == nil || !n.Exists() {
+			return obs{ok: false}
+		}
+		return obs{ok: true, val: text(n)}
+	case "Views":
+		switch t.TypeSafe() {
+		case ast.V_OBJECT:
+			m, err := t.Map()
+			mn, err2 := t.MapUseNode()
+			x, err3 := t.Interface()
+			if err != nil || err2 != nil || err3 != nil {
+				return obs{err: true}
+			}
+			// sizes of the map views count distinct keys; compared through Interface() below
+			_, _ = m, mn
+			l, _ := t.Len()
+			return obs{ok: true, val: strconv.Itoa(l) + "|" + gen.Dump(reflect.ValueOf(&x).Elem())}
+		case ast.V_ARRAY:
+			a, err := t.Array()
+			an, err2 := t.ArrayUseNode()
+			x, err3 := t.Interface()
+			if err != nil || err2 != nil || err3 != nil {
+				return obs{err: true}
+			}
+			if len(a) != len(an) {
+				return obs{ok: true, val: fmt.Sprintf("Array() has %d elements, ArrayUseNode() %d", len(a), len(an))}
+			}
+			return obs{ok: true, val: strconv.Itoa(len(a)) + "|" + gen.Dump(reflect.ValueOf(&x).Elem())}
+		}
+		return obs{unspec: true}
 	case "Keys":
 		switch t.TypeSafe() {
 		case ast.V_OBJECT:
@@ -593,6 +741,7 @@ func genOp(r *gen.Rng, root *mval) c15Op {
 	}
 	// index addressing stays legal after removals: removed slots are not counted
 	names = append(names, "Index", "Index", "SetByIndex", "UnsetByIndex", "Move")
+	names = append(names, "SetAny", "AddAny", "SetAnyByIndex", "IndexPair", "IndexOrGet", "GetByPath", "Views")
 	op.name = names[r.Intn(len(names))]
 	op.key = keyChoices[r.Intn(len(keyChoices))]
 	op.idx = r.Range(0, n+1)
@@ -605,12 +754,25 @@ func genOp(r *gen.Rng, root *mval) c15Op {
 	}
 	op.rec = r.Bool()
 	op.val = newValueModel(r)
+	op.key2 = []string{"in", "a", "b", "nokey", ""}[r.Intn(5)]
+
 	if r.Chance(1, 3) {
 		// move/copy a scalar that already lives in the same document
 		p := randomModelPath(r, root)
 		if src := modelAt(root, p); src != nil && len(p) > 0 && src.kind != ref.Arr && src.kind != ref.Obj {
 			op.from = p
 			op.val = src.clone()
+		}
+	}
+	if strings.HasSuffix(op.name, "Any") || strings.HasPrefix(op.name, "SetAny") {
+		// Go values with one possible JSON text
+		k := r.Intn(6)
+		op.any = []interface{}{nil, true, int64(r.Range(-50, 50)), "any s", []interface{}{int64(7), "x", nil}, map[string]interface{}{"only": false}}[k]
+		txt, _ := json.Marshal(op.any)
+		if mv, ok := modelOf(string(txt)); ok {
+			mv.opaque = true
+			op.val = mv
+			op.from = nil
 		}
 	}
 	// Move only inside arrays with both indexes in range (anything else is not specified)
@@ -630,7 +792,18 @@ func genOp(r *gen.Rng, root *mval) c15Op {
 	case "SortKeys":
 		op.label = strconv.FormatBool(op.rec)
 	}
-	if op.name == "Set" || op.name == "Add" || op.name == "SetByIndex" {
+	switch op.name {
+	case "SetAny", "IndexOrGet":
+		op.label = strconv.Quote(op.key) + "," + strconv.Itoa(op.idx)
+	case "SetAnyByIndex", "IndexPair":
+		op.label = strconv.Itoa(op.idx)
+	case "GetByPath":
+		op.label = fmt.Sprintf("%q|%d,%q", op.key, op.idx, op.key2)
+	}
+	if op.any != nil || strings.HasSuffix(op.name, "Any") {
+		op.from = nil
+	}
+	if op.name == "Set" || op.name == "Add" || op.name == "SetByIndex" || strings.Contains(op.name, "Any") {
 		op.label += " <- " + op.val.String()
 		if op.from != nil {
 			op.label += fmt.Sprintf(" taken from %v", op.from)
@@ -756,7 +929,7 @@ func c15One(c *Ctx, i int, doc string, r *gen.Rng) {
 	}
 	// final: Interface() of every replica equals encoding/json on the model text
 	var jv interface{}
-	if err := json.Unmarshal([]byte(model.String()), &jv); err == nil {
+	if err := json.Unmarshal([]byte(model.String()), &jv); err == nil && !model.hasOpaque() {
 		want := gen.Dump(reflect.ValueOf(&jv).Elem())
 		for _, rep := range reps {
 			var v interface{}
@@ -808,4 +981,13 @@ func runC15(c *Ctx) {
 		c.Distinct(gen.HashString(doc)^uint64(i), true)
 		c.Sample("doc", 3, q(doc))
 	}
+}
+
+// modelOf parses a JSON text into a model value.
+func modelOf(js string) (*mval, bool) {
+	tree, ok := ref.Parse(js)
+	if !ok {
+		return nil, false
+	}
+	return fromRef(tree), true
 }
